@@ -85,6 +85,26 @@ struct gen {
   sentinel end() { return {}; }
 };
 
+// a task whose awaited result is a reference (const int&): the coroutine must deliver the very object its CO_RETURN clause names
+template <bool Eager>
+struct reftask {
+  struct promise_type {
+    const int* ret = nullptr; std::optional<int> cur; std::exception_ptr ex;
+    reftask get_return_object() { return reftask{std::coroutine_handle<promise_type>::from_promise(*this)}; }
+    InitialAwait initial_suspend() noexcept { return {Eager}; }
+    std::suspend_always final_suspend() noexcept { return {}; }
+    void return_value(const int& v) { ret = &v; }
+    void unhandled_exception() { ex = std::current_exception(); }
+  };
+  std::coroutine_handle<promise_type> h;
+  explicit reftask(std::coroutine_handle<promise_type> h_) : h(h_) {}
+  reftask(reftask&& o) noexcept : h(std::exchange(o.h, {})) {}
+  ~reftask() { if (h) h.destroy(); }
+  bool await_ready() const noexcept { return false; }
+  void await_suspend(std::coroutine_handle<>) noexcept {}
+  const int& await_resume() { if (h.promise().ex) std::rethrow_exception(h.promise().ex); return *h.promise().ret; }
+};
+
 // a lazily started task type WITHOUT a nested promise_type: its promise is found only through std::coroutine_traits
 template <typename T> struct ext_stream;
 template <typename T> struct ext_stream_promise {
@@ -111,6 +131,7 @@ template <typename T, typename... A> struct std::coroutine_traits<c20::ext_strea
 namespace c20 {
 
 extern int g_live;  // a variable LR_CO_YIELD clauses refer to: modified after the expectation was created
+extern const int g_named;  // the object LR_CO_RETURN(g_named) of a reference-returning coroutine names
 
 struct M {
   MAKE_MOCK0(xs, (ext_stream<int>()));
@@ -119,6 +140,8 @@ struct M {
   MAKE_MOCK0(ve, (task<void, true>()));
   MAKE_MOCK0(vl, (task<void, false>()));
   MAKE_MOCK0(g, (gen<int>()));
+  MAKE_MOCK0(re, (reftask<true>()));
+  MAKE_MOCK0(rl, (reftask<false>()));
 };
 
 // ---- type-erased stepping: every step produces one event; the events of one coroutine are its observable behaviour ----
@@ -149,6 +172,20 @@ struct TaskCoro : ICoro {
     t.h.resume();
     return observe();
   }
+};
+template <bool Eager>
+struct RefCoro : ICoro {
+  reftask<Eager> t; bool fin = false;
+  explicit RefCoro(reftask<Eager>&& t_) : t(std::move(t_)) {}
+  bool finished() const override { return fin; }
+  std::string observe() {
+    if (!t.h.done()) return "?suspended-without-yield";
+    fin = true;
+    // identity, not value: a copy made on the way (a dead temporary by now) is a different object
+    try { const int& r = t.await_resume(); return &r == &g_named ? "Rref:the-named-object" : "Rref:some-other-object"; } catch (std::exception& e) { return std::string("X") + e.what(); } catch (...) { return "Xunknown"; }
+  }
+  std::string at_call() override { return Eager ? observe() : std::string(); }
+  std::string step() override { t.h.resume(); return observe(); }
 };
 struct ExtCoro : ICoro {
   ext_stream<int> t; bool fin = false;
